@@ -12,9 +12,16 @@
 (*   [op |-> "matches", k, n, res]  res in "match"/"nomatch"/"FormatError" *)
 (*   [op |-> "find", n, res]      res = index of the returned paragraph,   *)
 (*                                0 = None, -1 = ValueError                *)
+(*   [op |-> "translate", ps, res]  rx = globs_to_re(ps) called directly   *)
+(*                                (patterns may contain LF and blanks):    *)
+(*                                res = "ok" / "FormatError"; rx keeps its *)
+(*                                value when the call raises               *)
+(*   [op |-> "query", n, res]     rx.fullmatch(n): "match" / "nomatch"     *)
 (* find on a document with an ill-formed paragraph: the statement does not *)
 (* say whether the error wins over a later match, both the format error    *)
-(* and the last well-formed match are accepted.                            *)
+(* and the last well-formed match are accepted -- but the answer is a      *)
+(* function of (document, name): asking the same name again while the      *)
+(* document is unchanged must give the same answer (seen).                 *)
 (* <<"ACCEPTED", tid>> is printed for every completely explained trace.    *)
 (***************************************************************************)
 EXTENDS Glob, IOUtils
@@ -22,33 +29,45 @@ EXTENDS Glob, IOUtils
 Traces == JsonDeserialize(IOEnv.TRACE_FILE)
 Diag   == IOEnv.TRACE_DIAG = "1"
 
-VARIABLES tid, l
+VARIABLES tid, l,
+          tl,      \* the pattern list of the last successful direct translation
+          seen     \* <<name, result>> of the find calls since the document last changed
 
 Tr == Traces[tid]
 
 TInit == /\ tid \in 1..Len(Traces)
          /\ l = 1
-         /\ doc = <<>> /\ n = <<>>
+         /\ doc = <<>> /\ n = <<>> /\ tl = <<>> /\ seen = {}
 
 TStep == /\ l <= Len(Tr.events)
          /\ LET e == Tr.events[l] IN
-              \/ e.op = "doc" /\ doc' = e.d /\ n' = n
+              \/ e.op = "doc" /\ doc' = e.d /\ n' = n /\ seen' = {} /\ UNCHANGED tl
               \/ /\ e.op = "setfiles" /\ e.k \in 1..Len(doc)
-                 /\ doc' = [doc EXCEPT ![e.k] = e.ps] /\ n' = n
+                 /\ doc' = [doc EXCEPT ![e.k] = e.ps] /\ n' = n /\ seen' = {} /\ UNCHANGED tl
               \/ /\ e.op = "matches" /\ e.k \in 1..Len(doc)
-                 /\ doc' = doc /\ n' = e.n
+                 /\ doc' = doc /\ n' = e.n /\ UNCHANGED <<tl, seen>>
                  /\ e.res = RefMatches(doc[e.k], e.n)
               \/ /\ e.op = "find"
-                 /\ doc' = doc /\ n' = e.n
+                 /\ doc' = doc /\ n' = e.n /\ UNCHANGED tl
                  /\ e.res \in {RefFind(doc, e.n), LenientFind(doc, e.n)}
+                 /\ \A s \in seen : s[1] = e.n => s[2] = e.res
+                 /\ seen' = seen \cup {<<e.n, e.res>>}
+              \/ /\ e.op = "translate"
+                 /\ e.res = (IF AllOK(e.ps) THEN "ok" ELSE "FormatError")
+                 /\ tl' = (IF AllOK(e.ps) THEN e.ps ELSE tl)
+                 /\ UNCHANGED <<doc, n, seen>>
+              \/ /\ e.op = "query"
+                 /\ e.res = RefMatches(tl, e.n)
+                 /\ n' = e.n /\ UNCHANGED <<doc, tl, seen>>
          /\ l' = l + 1 /\ UNCHANGED tid
          /\ (Diag => PrintT(<<"AT", tid, l>>))
          /\ (l' = Len(Tr.events) + 1 => PrintT(<<"ACCEPTED", tid>>))
 
-TSpec == TInit /\ [][TStep]_<<vars, tid, l>>
+TSpec == TInit /\ [][TStep]_<<vars, tid, l, tl, seen>>
 
 \* the implementation-layer model (fullmatch discipline) agrees with the reference on every
 \* observed input, far beyond the bounded configuration
 TImplAgrees == /\ \A k \in 1..Len(doc) : ImplMatches(doc[k], n) = RefMatches(doc[k], n)
                /\ ImplFind(doc, n) = RefFind(doc, n)
+               /\ ImplMatches(tl, n) = RefMatches(tl, n) \/ tl = <<>>
 =============================================================================
